@@ -51,10 +51,14 @@ def main():
     seeded = '--seeded' in args
     names = [a for a in args if not a.startswith('--')]
     rows = []
+    outside = {}
     if seeded:
         items = []
         for d in sorted(glob.glob(f'{V}/seeded/*/')):
             meta = json.load(open(d + 'meta.json'))
+            if meta.get('outside_property'):
+                outside[os.path.basename(d.rstrip('/'))] = meta['property']
+                continue
             items.append((os.path.basename(d.rstrip('/')), d + 'patch.diff', meta['property'], tuple(meta.get('also_checked_by', []))))
         out = f'{V}/seeded/RESULTS.md'
     else:
@@ -80,8 +84,10 @@ def main():
             done.add(name)
             f.write(f"| {name} | {prop} | {r.get('unit_tests','')} | {r.get('status')} | {r.get('by','')} / {r.get('seed','')} | {r.get('seconds','')} | {(r.get('detail') or '').replace('|','/')[:160]} |\n")
         for k, l in prev.items():
-            if k not in done:
+            if k not in done and k not in outside:
                 f.write(l)
+        for k, prop in sorted(outside.items()):
+            f.write(f"| {k} | {prop} |  | outside the property (see meta.json: outside_property) |  /  |  |  |\n")
     surv = [n for n, _, r in rows if r.get('status') == 'SURVIVED']
     print('survivors:', surv)
 
